@@ -124,6 +124,36 @@ def permuted(gd, rng):
     return out
 
 
+def node(name):
+    """The y0 node a description name stands for: a plain Variable, or - "A@-B" / "A@+B" - the counterfactual
+    variable A under the intervention -B / +B (a second node with the same ``.name``)."""
+    from y0.dsl import Variable
+
+    if "@" not in name:
+        return Variable(name)
+    base, iv = name.split("@", 1)
+    return Variable(base) @ (-Variable(iv[1:]) if iv[0] == "-" else +Variable(iv[1:]))
+
+
+def twin_worlds(gd, rng):
+    """Two copies of an ADMG in one graph, the second over counterfactual variables A@-x (same ``.name`` as A), joined
+    by bidirected edges between the copies - the shape of a parallel-worlds graph, built without y0's help."""
+    x = rng.choice(gd["nodes"])
+    tw = {n: f"{n}@-{x}" for n in gd["nodes"]}
+    nodes = list(gd["nodes"]) + [tw[n] for n in gd["nodes"]]
+    di = [list(e) for e in gd["di"]] + [[tw[u], tw[v]] for u, v in gd["di"] if v != x]
+    bi = [list(e) for e in gd["bi"]] + [[tw[u], tw[v]] for u, v in gd["bi"] if x not in (u, v)]
+    for n in gd["nodes"]:
+        if n != x and rng.random() < 0.6:
+            bi.append([n, tw[n]])
+    for u, v in gd["bi"]:
+        if x not in (u, v) and rng.random() < 0.5:
+            bi.append([u, tw[v]])
+    if rng.random() < 0.5:
+        rng.shuffle(nodes)
+    return {"nodes": nodes, "di": di, "bi": bi, "hostile": "twin-worlds"}
+
+
 def to_nx(gd, mode=None):
     """Build the real y0 NxMixedGraph, honouring the insertion order of the description.  The construction path is a
     workload dimension: the add_* mutators, from_edges, from_str_edges, from_adj and from_str_adj (chosen by a
@@ -133,7 +163,9 @@ def to_nx(gd, mode=None):
 
     if mode is None:
         mode = sum(map(ord, "".join(gd["nodes"]) + "".join(a + b for a, b in gd["di"] + gd["bi"]))) % 7
-    V = Variable
+    V = node
+    if mode in (4, 6) and any("@" in n for n in gd["nodes"]):
+        mode = 3  # the from_str_* constructors cannot name a counterfactual variable
     if mode == 3:
         return NxMixedGraph.from_edges(nodes=[V(n) for n in gd["nodes"]], directed=[(V(u), V(v)) for u, v in gd["di"]],
                                        undirected=[(V(u), V(v)) for u, v in gd["bi"]])
@@ -154,11 +186,11 @@ def to_nx(gd, mode=None):
         return NxMixedGraph.from_str_adj(nodes=list(gd["nodes"]), directed=dadj, undirected=uadj)
     g = NxMixedGraph()
     for n in gd["nodes"]:
-        g.add_node(Variable(n))
+        g.add_node(V(n))
     for u, v in gd["di"]:
-        g.add_directed_edge(Variable(u), Variable(v))
+        g.add_directed_edge(V(u), V(v))
     for u, v in gd["bi"]:
-        g.add_undirected_edge(Variable(u), Variable(v))
+        g.add_undirected_edge(V(u), V(v))
     return g
 
 
@@ -169,9 +201,9 @@ def to_rg(gd):
     from ..refgraph import RG
 
     return RG.make(
-        [Variable(n) for n in gd["nodes"]],
-        [(Variable(u), Variable(v)) for u, v in gd["di"]],
-        [(Variable(u), Variable(v)) for u, v in gd["bi"]],
+        [node(n) for n in gd["nodes"]],
+        [(node(u), node(v)) for u, v in gd["di"]],
+        [(node(u), node(v)) for u, v in gd["bi"]],
     )
 
 
